@@ -313,7 +313,7 @@ Definition clafer_value (v : aval) : string :=
   | VStr s => quote s
   | VBool b => if b then "true" else "false"
   | VInt z => z_to_string z
-  | VFloat r => r
+  | VFloat r => match py_positional r with Some t => t | None => r end   (* fix: positional; non-finite: see clafer_write *)
   | other => py_str other
   end.
 Definition clafer_type (v : aval) : string :=
@@ -321,12 +321,20 @@ Definition clafer_type (v : aval) : string :=
   | VBool _ => "boolean" | VInt _ => "integer" | VFloat _ => "double" | VStr _ => "string" | _ => ""
   end.
 
+(* fix: 0..* is Clafer's DEFAULT group cardinality, under which a child is 1..1 unless marked: the members of a [0..*]
+   group are written with "?" *)
+Definition in_any_number_group (p : option feature) (f : feature) : bool :=
+  match p with
+  | None => false
+  | Some q => existsb (fun r => rel_is_cardinal r && (r_min r =? 0)%Z && (r_max r =? -1)%Z && in_children f r) (rels q)
+  end.
+
 Fixpoint clafer_tree (p : option feature) (f : feature) : clf :=
   match f with
   | Feature i rs =>
       Clf (clafer_group f) (cl_safename (f_name i))
           (negb (Nat.eqb (List.length (f_attrs i)) 0))
-          (feat_is_optional p f)
+          (feat_is_optional p f || in_any_number_group p f)
           (map (fun a => (cl_safename (a_name a), clafer_value (a_default a))) (f_attrs i))
           (flat_map (fun r => match r with Relation _ _ cs => map (clafer_tree (Some f)) cs end) rs)
   end.
@@ -369,7 +377,13 @@ Definition clafer_attrdecls (m : fm) : list (string * string) :=
   let d := fold_left (fun acc kv => dict_set acc (fst kv) (VStr (snd kv))) all [] in
   map (fun kv => (cl_safename (fst kv), match snd kv with VStr s => s | _ => "" end)) d.
 
+Definition nonfinite_float (v : aval) : bool :=
+  match v with VFloat r => match py_positional r with None => true | Some _ => false end | _ => false end.
+
 Definition clafer_write (m : fm) : result cdoc :=
+  if existsb (fun f => existsb (fun a => nonfinite_float (a_default a)) (f_attrs (info f))) (get_features m)
+  then Err FlamaException      (* fix: Clafer has no literal for an infinity or NaN *)
+  else
   match mapM (fun c => clafer_node (c_ast c)) (ctcs m) with
   | Err e => Err e
   | Ok cs => Ok {| cd_attrdecls := clafer_attrdecls m; cd_root := clafer_tree None (root m); cd_ctcs := cs;
@@ -388,13 +402,19 @@ Section ClaferSem.
     | GXor => (1, 1)%Z | GOr => (1, Z.of_nat n)%Z | GMux => (0, 1)%Z
     | GCardC a b => (a, if (b =? -1)%Z then Z.of_nat n else b)
     end.
-  (* a clafer with a group cardinality: its children default to 0..1 and are counted by the group;
-     otherwise a child is 1..1 unless marked ? *)
+  (* a clafer with a group cardinality OTHER THAN 0..* (the default, also when written out): its children default to
+     0..1 and are counted by the group; otherwise a child is 1..1 unless marked ?  (Clafer's analyzeCard) *)
+  Definition default_gcard (g : option cgroup) : bool :=
+    match g with
+    | None => true
+    | Some (GCardC a b) => (a =? 0)%Z && (b =? -1)%Z
+    | Some _ => false
+    end.
   Fixpoint cl_sem (c : clf) : bool :=
     match c with
     | Clf g n _ _ _ kids =>
         σ n
-        && match g with
+        && match (if default_gcard g then None else g) with
            | Some gr =>
                let (a, b) := group_bounds gr (List.length kids) in
                let k := Z.of_nat (List.length (filter (fun d => σ (cl_name d)) kids)) in
